@@ -286,6 +286,13 @@ func H_C14_multi() {
 	r2, e2 := s.Execute()
 	vAssert(e1 == nil && e2 == nil, "search-ok")
 	vSameResults(r1, r2, "second-execute-same-result")
+	sn := u.idx.NewSearch().WithNode(5).WithK(5)
+	n1, en1 := sn.Execute()
+	n2, en2 := sn.Execute()
+	vAssert((en1 == nil) == (en2 == nil), "second-execute-same-error")
+	if en1 == nil && en2 == nil {
+		vSameResults(n1, n2, "second-execute-same-result-node-query")
+	}
 	r3, e3 := u.idx.NewSearch().WithQuery(q1, q2).WithK(5).WithScoreAggregation(MaxAggregation).Execute()
 	vAssert(e3 == nil && len(r3) == 2, "batch-ok")
 	for i := range u.m.entries {
